@@ -828,3 +828,161 @@ Proof.
   destruct (entry_suffix_some_occurs _ _ _ E2) as (g2 & Hg2 & Hi2).
   assert (e1 = e2) by (eapply Hd; eauto). subst. congruence.
 Qed.
+
+(** ** 8. the side condition is an invariant of [build_groups]: an index is entered under
+    its own path only, and the paths of the groups map are pairwise distinct *)
+Definition build_go (r : registry) :=
+  fix go (idx : N) (l : registry) (m : groups) : result groups :=
+    match l with
+    | [] => Ok m
+    | (_, t) :: l' =>
+        match namespace (t_path t) with
+        | [] => go (idx + 1)%N l' m
+        | _ => let* m' := groups_add r m (t_path t) idx in go (idx + 1)%N l' m'
+        end
+    end.
+
+Lemma build_groups_unfold r : build_groups r = build_go r 0%N r [].
+Proof. reflexivity. Qed.
+
+Definition rename_go (m : groups) :=
+  fix go (idx : N) (l : registry) : registry :=
+    match l with
+    | [] => []
+    | (id, t) :: l' =>
+        (id, match suffix_for m idx with
+             | Some n => mk_ty (rename_last (t_path t) n) (t_params t) (t_def t) (t_docs t)
+             | None => t
+             end) :: go (idx + 1)%N l'
+    end.
+
+Lemma ensure_unique_unfold r :
+  ensure_unique r =
+  let* _ := sanity r in let* m := build_groups r in Ok (rename_go m 0%N r).
+Proof. reflexivity. Qed.
+
+Lemma add_to_groups_members r i : forall gs gs',
+  add_to_groups r i gs = Ok gs' ->
+  forall g j, In g gs' -> In j g -> j = i \/ exists g0, In g0 gs /\ In j g0.
+Proof.
+  induction gs as [|g0 gs IH]; intros gs' H g j Hg Hj; cbn [add_to_groups] in H.
+  - inversion H; subst. destruct Hg as [<-|[]]. destruct Hj as [<-|[]]. left; reflexivity.
+  - destruct g0 as [|other g0']; [discriminate|].
+    apply bind_ok in H as (e & _ & H). destruct e.
+    + inversion H; subst. destruct Hg as [<-|Hg].
+      * change (In j ((other :: g0') ++ [i])) in Hj.
+        apply in_app_or in Hj as [Hj|[<-|[]]]; [|left; reflexivity].
+        right. exists (other :: g0'). split; [left; reflexivity|exact Hj].
+      * right. exists g. split; [right; exact Hg|exact Hj].
+    + apply bind_ok in H as (gs'' & Ha & H). inversion H; subst. destruct Hg as [<-|Hg].
+      * right. exists (other :: g0'). split; [left; reflexivity|exact Hj].
+      * destruct (IH _ Ha g j Hg Hj) as [E|(g1 & Hg1 & Hj1)]; [left; exact E|].
+        right. exists g1. split; [right; exact Hg1|exact Hj1].
+Qed.
+
+Lemma groups_add_spec r i p : forall m m',
+  groups_add r m p i = Ok m' ->
+  (map fst m' = map fst m \/ (map fst m' = map fst m ++ [p] /\ ~ In p (map fst m))) /\
+  (forall k gs' g j, In (k, gs') m' -> In g gs' -> In j g ->
+                     (j = i /\ k = p) \/ exists gs g0, In (k, gs) m /\ In g0 gs /\ In j g0).
+Proof.
+  induction m as [|[k0 gs0] m IH]; intros m' H; cbn [groups_add] in H.
+  - inversion H; subst. split; [right; split; [reflexivity|intros []]|].
+    intros k gs' g j [E|[]] Hg Hj. inversion E; subst.
+    destruct Hg as [<-|[]]. destruct Hj as [<-|[]]. left; auto.
+  - destruct (path_eqb k0 p) eqn:E.
+    + apply path_eqb_eq in E; subst k0. apply bind_ok in H as (gs1 & Ha & H). inversion H; subst.
+      split; [left; reflexivity|].
+      intros k gs' g j [Ein|Hin] Hg Hj.
+      * inversion Ein; subst.
+        destruct (add_to_groups_members _ _ _ _ Ha g j Hg Hj) as [->|(g1 & Hg1 & Hj1)]; [left; auto|].
+        right. exists gs0, g1. split; [left; reflexivity|auto].
+      * right. exists gs', g. split; [right; exact Hin|auto].
+    + apply bind_ok in H as (m1 & Ha & H). inversion H; subst. destruct (IH _ Ha) as [K M].
+      split.
+      * cbn [map fst]. destruct K as [K|[K Hn]]; [left; rewrite K; reflexivity|].
+        right. split; [rewrite K; reflexivity|].
+        intros [Hp|Hp]; [subst; rewrite path_eqb_refl in E; discriminate|contradiction].
+      * intros k gs' g j [Ein|Hin] Hg Hj.
+        -- inversion Ein; subst. right. exists gs', g. split; [left; reflexivity|auto].
+        -- destruct (M _ _ _ _ Hin Hg Hj) as [L|(gs & g1 & H1 & H2 & H3)]; [left; exact L|].
+           right. exists gs, g1. split; [right; exact H1|auto].
+Qed.
+
+Section BuildInv.
+  Variable r : registry.
+  (** [P j k]: index [j] belongs under path [k] *)
+  Variable P : N -> list string -> Prop.
+
+  Definition groups_inv (m : groups) : Prop :=
+    NoDup (map fst m) /\ forall k gs g j, In (k, gs) m -> In g gs -> In j g -> P j k.
+
+  Lemma build_go_inv : forall l idx m m',
+    groups_inv m ->
+    (forall n e, nth_error l n = Some e -> P (idx + N.of_nat n)%N (t_path (snd e))) ->
+    build_go r idx l m = Ok m' -> groups_inv m'.
+  Proof.
+    induction l as [|[id t] l IH]; intros idx m m' Hinv HP H; cbn [build_go] in H.
+    - inversion H; subst; exact Hinv.
+    - assert (HP' : forall n e, nth_error l n = Some e -> P (idx + 1 + N.of_nat n)%N (t_path (snd e))).
+      { intros n e Hn. specialize (HP (S n) e Hn).
+        replace (idx + 1 + N.of_nat n)%N with (idx + N.of_nat (S n))%N by lia. exact HP. }
+      destruct (namespace (t_path t)) as [|n0 ns]; [eapply IH; eauto|].
+      apply bind_ok in H as (m1 & Ha & H). eapply IH; [|exact HP'|exact H].
+      destruct (groups_add_spec _ _ _ _ _ Ha) as [K M]. destruct Hinv as [ND Hown]. split.
+      + destruct K as [K|[K Hn]]; rewrite K; [exact ND|].
+        eapply Permutation_NoDup; [apply Permutation_cons_append|]. constructor; assumption.
+      + intros k gs g j Hin Hg Hj.
+        destruct (M _ _ _ _ Hin Hg Hj) as [[-> ->]|(gs0 & g0 & H1 & H2 & H3)].
+        * specialize (HP O (id, t) eq_refl). cbn [snd] in HP.
+          replace (idx + N.of_nat 0)%N with idx in HP by lia. exact HP.
+        * eapply Hown; eauto.
+  Qed.
+End BuildInv.
+
+Definition path_at (r : registry) (j : N) (k : list string) : Prop :=
+  exists e, nth_error r (N.to_nat j) = Some e /\ t_path (snd e) = k.
+
+Lemma build_groups_inv r m : build_groups r = Ok m -> groups_inv (path_at r) m.
+Proof.
+  rewrite build_groups_unfold. apply build_go_inv.
+  - split; [constructor|intros ? ? ? ? []].
+  - intros n e Hn. exists e. split; [|reflexivity].
+    replace (N.to_nat (0 + N.of_nat n)) with n by lia. exact Hn.
+Qed.
+
+Lemma nodup_keys_functional {A B} (m : list (A * B)) k a b :
+  NoDup (map fst m) -> In (k, a) m -> In (k, b) m -> a = b.
+Proof.
+  induction m as [|[k0 v0] m IH]; cbn [map fst]; intros ND Ha Hb; [destruct Ha|].
+  inversion ND as [|? ? Hn ND']; subst.
+  destruct Ha as [Ea|Ha], Hb as [Eb|Hb].
+  - congruence.
+  - inversion Ea; subst. exfalso. apply Hn. apply (in_map fst m (k, b)). exact Hb.
+  - inversion Eb; subst. exfalso. apply Hn. apply (in_map fst m (k, a)). exact Ha.
+  - eapply IH; eauto.
+Qed.
+
+(** C06 [dedup_order_free]: whatever order the path groups of [build_groups] are visited
+    in, every index gets the same new name, so the de-duplicated registry is the same *)
+Theorem build_groups_suffix_perm r m m' :
+  build_groups r = Ok m -> Permutation m m' -> forall i, suffix_for m i = suffix_for m' i.
+Proof.
+  intros Hb P i. destruct (build_groups_inv _ _ Hb) as [ND Hown].
+  apply suffix_for_perm_disjoint; [exact P|].
+  intros [k1 gs1] [k2 gs2] g1 g2 H1 H2 Hg1 Hg2 Hi1 Hi2. cbn [snd] in Hg1, Hg2.
+  destruct (Hown _ _ _ _ H1 Hg1 Hi1) as (e1 & N1 & <-).
+  destruct (Hown _ _ _ _ H2 Hg2 Hi2) as (e2 & N2 & <-).
+  rewrite N1 in N2. inversion N2; subst e2.
+  f_equal. eapply nodup_keys_functional; eauto.
+Qed.
+
+Theorem ensure_unique_order_free r m m' :
+  build_groups r = Ok m -> Permutation m m' -> rename_go m 0%N r = rename_go m' 0%N r.
+Proof.
+  intros Hb P.
+  assert (G : forall l idx, rename_go m idx l = rename_go m' idx l).
+  { induction l as [|[id t] l IH]; intros idx; cbn [rename_go]; [reflexivity|].
+    rewrite (build_groups_suffix_perm r m m' Hb P idx), IH. reflexivity. }
+  apply G.
+Qed.
